@@ -335,7 +335,7 @@ def _run(ctx):
     ctx.sample({"recipe": gen.TAG("div", {"k": "html", "s": "p1;<b>&amp;</b>"}, {"k": "text", "s": "t2;"}),
                 "output": ht.div(ht.HTML("p1;<b>&amp;</b>"), "t2;").get_html_string()})
 
-    for _ in range(ctx.budget(3000, 200000)):
+    for _ in range(ctx.budget(3000, 2000000)):
         ids = lg.Ids()
         valid = rng.random() < 0.7
         r = rand_trusted_tree(rng, ids, rng.choice([1, 2, 3, 4, 5]), valid)
@@ -360,7 +360,7 @@ def _run(ctx):
         ctx.case(("textdoc", ps, insc), nontrivial=any("\\" in p or set(p) & set("&<>") for p in ps))
     ctx.sample({"expr": {"op": "add", "l": {"leaf": "str", "v": "a<b"}, "r": {"leaf": "html", "v": "<i>"}},
                 "value": ("a<b" + ht.HTML("<i>")).as_string()})
-    for _ in range(ctx.budget(3000, 200000)):
+    for _ in range(ctx.budget(3000, 2000000)):
         e = rand_expr(rng, rng.choice([1, 2, 3, 4, 5, 6, 8]))
         check_expr(ctx, e)
         lv = leaves(e)
